@@ -270,7 +270,8 @@ def pfold(specdir, segs, timeout=1500):
         return {}, False, res.distinct, res.generated, "LifecycleObs consumed %d of %d lines (unreadable event at line %d)" % (
             res.depth - 1, n, res.depth)
     verdicts = {}
-    for cl, ln, names in re.findall(r'<<"VIOLATED", (\d+), (\d+), <<(.*?)>>>>', res.out):
+    # TLC wraps long tuples over several lines ("<< "VIOLATED",\n 48,\n ..."): match across white space
+    for cl, ln, names in re.findall(r'<<\s*"VIOLATED",\s*(\d+),\s*(\d+),\s*<<(.*?)>>\s*>>', res.out, re.S):
         i = starts.index(int(cl))
         if i not in verdicts or int(ln) - int(cl) + 1 < verdicts[i][0]:
             verdicts[i] = (int(ln) - int(cl) + 1, re.findall(r'"(\w+)"', names))
